@@ -1,15 +1,21 @@
 (* C07 - A GN/LM step is the documented damped, weighted linear solve on the manifold.
-   Statements only; proofs in Proofs/Optim.v, model in Model/Optim.v.
+   Statements only; proofs in Proofs/Optim.v, Optim2.v .. Optim5.v, model in Model/Optim.v.
+   Sections 1-7: first build.  Sections 8-14: clause-by-clause strengthening (any number of residuals, every
+   weight shape, corrector assignment, column layout = split offsets, LM calls as histories, the GN step as a
+   weighted least-squares minimiser with derived shapes, minimum norm of the pseudo-inverse solution, the update
+   entry by entry in terms of the step vector) and instances showing that the hypotheses are satisfiable.
 
    What is a hypothesis here (Section variables, never axioms): the linear solver with its contract
    (GN: the answer satisfies the normal equations of the system it was given, i.e. it is a
    least-squares solution; LM: it solves the square system), the correctors (C09), the Jacobian
    blocks J[i][j] (C04).  The group retraction uses the modelled exponential map of Model/LieExp.v.
-   Minimum-norm of the default GN solver (PINV) is a property of the solver (C10) and is checked on the
-   implementation by the correspondence harness only. *)
+   Minimum norm of the default GN solver (PINV): proved in section 12 from the four Penrose equations; that
+   torch.linalg.pinv returns a pseudo-inverse is a contract (C10) checked on the implementation by the harness.
+   Not a theorem anywhere: that modjac's blocks are the true left-perturbation Jacobians (C04), what the
+   corrector objects compute (C09), vectorize on/off (autograd internals). *)
 From Coq Require Import Reals List Arith.
 Import ListNotations.
-From PV Require Import Base.Num Base.Mat Model.LieGroup Model.LieExp Model.Optim Proofs.Optim.
+From PV Require Import Base.Num Base.Mat Model.LieGroup Model.LieExp Model.Optim Proofs.Optim Proofs.Optim2 Proofs.Optim3 Proofs.Optim4 Proofs.Optim5.
 #[local] Remove Hints NumQ NumZ : typeclass_instances.
 Local Open Scope R_scope.
 
@@ -273,6 +279,403 @@ Example C07_solver_contract_satisfiable :
   mapply (mtr A) (mapply A [-1; 0]) = mapply (mtr A) b.
 Proof. exact free_pb_normal_equations. Qed.
 
+
+(* ========================================================================================== *)
+(* 8. WEIGHTS, every shape.  Complete description of the expansion for a weight of shape ws ++ [d; d] against
+      a residual of shape rs ++ [d], ANY rs and ws: the |ws| weight matrices, the whole list repeated
+      floor(|rs| / |ws|) times (block t = weight item t mod |ws|) *)
+Theorem C07_weight_expansion_any_shape :
+  forall (F : Type) (NF : Num F) (rs ws : list nat) (d : nat) (rdata wdata : list F),
+  (0 < d)%nat -> (0 < prodn ws)%nat ->
+  expand_weight {| tshape := rs ++ [d]; tdata := rdata |} {| tshape := ws ++ [d; d]; tdata := wdata |}
+  = Some (map (fun t => wblock d wdata (t mod prodn ws)) (seq 0 ((prodn rs / prodn ws) * prodn ws))).
+Proof. intros F NF. exact expand_weight_general. Qed.
+
+(* for the documented shapes "t mod |suf|" IS torch's broadcast: torch_bcast_index rs ws t is the flat index of
+   the weight item that residual item t meets when ws is broadcast over rs (right-aligned, extents 1 stretched) *)
+Theorem C07_weight_expansion_is_torch_broadcast :
+  forall (F : Type) (NF : Num F) (pre suf : list nat) (d : nat) (rdata wdata : list F),
+  (0 < d)%nat -> (0 < prodn suf)%nat ->
+  (forall t, torch_bcast_index (pre ++ suf) suf t = (t mod prodn suf)%nat) /\
+  expand_weight {| tshape := pre ++ suf ++ [d]; tdata := rdata |} {| tshape := suf ++ [d; d]; tdata := wdata |}
+  = Some (map (fun t => wblock d wdata (torch_bcast_index (pre ++ suf) suf t)) (seq 0 (prodn pre * prodn suf))).
+Proof.
+  intros F NF pre suf d rdata wdata Hd Hs. split; [intros t; now apply torch_bcast_index_suffix|].
+  rewrite (weight_expansion_is_broadcast pre suf d rdata wdata Hd Hs). f_equal. apply map_ext. intros t.
+  now rewrite torch_bcast_index_suffix.
+Qed.
+(* weights with leading extents 1 (1*N*R*R, 1*1*R*R, ...): any batch shape with as many items as a suffix expands
+   like it, and for 1*..*1*suf that is again torch's broadcast *)
+Theorem C07_weight_expansion_same_count :
+  forall (F : Type) (NF : Num F) (pre suf ws : list nat) (d : nat) (rdata wdata : list F),
+  (0 < d)%nat -> (0 < prodn suf)%nat -> prodn ws = prodn suf ->
+  expand_weight {| tshape := (pre ++ suf) ++ [d]; tdata := rdata |} {| tshape := ws ++ [d; d]; tdata := wdata |}
+  = Some (map (fun t => wblock d wdata (t mod prodn suf)) (seq 0 (prodn pre * prodn suf))).
+Proof. intros F NF. exact expand_weight_same_count. Qed.
+Theorem C07_weight_leading_ones_is_torch_broadcast : forall (pre suf : list nat) k t, (0 < prodn suf)%nat ->
+  torch_bcast_index (pre ++ suf) (repeat 1%nat k ++ suf) t = (t mod prodn suf)%nat /\
+  prodn (repeat 1%nat k ++ suf) = prodn suf.
+Proof. exact torch_bcast_index_leading_ones. Qed.
+
+(* REFUTED beyond the documented forms: "the corresponding residual and weight should be broadcastable" read as
+   torch broadcasting allows a weight with an INNER extent 1 (residual B*N*R, weight B*1*R*R).  normalize_RWJ
+   accepts it without raising and pairs the wrong items: residual 2*2*1, weight 2*1*1*1 = (1, 2) gives
+   diag(1, 2, 1, 2) where torch's broadcast is diag(1, 1, 2, 2) *)
+Theorem C07_weight_inner_singleton_refuted :
+  exists (rs ws : list nat) (d : nat) (rdata wdata : list R) blocks,
+    expand_weight {| tshape := rs ++ [d]; tdata := rdata |} {| tshape := ws ++ [d; d]; tdata := wdata |} = Some blocks /\
+    blocks <> map (fun t => wblock d wdata (torch_bcast_index rs ws t)) (seq 0 (prodn rs)).
+Proof. exact inner_singleton_refuted. Qed.
+
+(* any number of residuals, each with a weight of a documented shape (wres: residual pre ++ suf ++ [d], weight
+   suf ++ [d; d]): normalize_RWJ returns R = the concatenated residual data, W = block_diag of ALL blocks in
+   residual order, a square matrix of the size of R, and W @ R multiplies item t of residual k by weight item
+   t mod |suf_k| of weight k *)
+Theorem C07_weighted_residuals_are_broadcast : forall (specs : list wres) (Js : list (@mat R)),
+  Forall wres_ok specs ->
+  let Rv := concat (map w_r specs) in
+  let Ms := concat (map wres_blocks specs) in
+  normalize_RWJ (map wres_R specs) (Some (map wres_W specs)) Js = Some (Rv, Some (block_diag Ms), concat Js) /\
+  mapply (block_diag Ms) Rv = concat (map wres_WR specs) /\
+  ((0 < length Rv)%nat -> wf (length Rv) (length Rv) (block_diag Ms)).
+Proof. exact weighted_residuals_are_broadcast. Qed.
+
+(* ========================================================================================== *)
+(* 9. COLUMN LAYOUT = SPLIT OFFSETS.  The flattened Jacobian of a residual with n elements: block i (flat,
+      n x numel(p_i), as modjac returns it) of a trainable parameter occupies the columns
+      toffset ps i .. toffset ps i + numel(p_i) - 1 -- the positions of the slice C07_update_split hands to
+      parameter i.  Guards = what torch enforces (reshape(-1, 0) and cat of different row counts raise). *)
+Theorem C07_jacobian_column_layout : forall (Jr : list (list R)) (ps : list (@param R)) n,
+  length Jr = length ps -> (0 < n)%nat ->
+  (forall k, (k < length ps)%nat -> preq (nth k ps pdflt) = true ->
+     (0 < pnumel (nth k ps pdflt))%nat /\ length (nth k Jr []) = (n * pnumel (nth k ps pdflt))%nat) ->
+  (exists k, (k < length ps)%nat /\ preq (nth k ps pdflt) = true) ->
+  wf n (sumnat (map (@pnumel R) (filter (@preq R) ps))) (flatten_row_jacobian Jr ps) /\
+  forall r i c, (r < n)%nat -> (i < length ps)%nat -> preq (nth i ps pdflt) = true -> (c < pnumel (nth i ps pdflt))%nat ->
+    mget (flatten_row_jacobian Jr ps) r (toffset ps i + c) =
+    nth (r * pnumel (nth i ps pdflt) + c) (nth i Jr []) 0.
+Proof. exact flatten_column_layout. Qed.
+
+(* ... hence the linearised model J delta, parameter by parameter: the predicted change of residual element r is
+   the sum over the trainable parameters i of (row r of modjac's block i) . (the slice update_parameter hands to
+   parameter i); by_param ps g = sum over trainable i, c < numel(p_i) of g i c.  The split of the step and the
+   column layout of the Jacobian agree for any number of parameters, any sizes, frozen parameters anywhere *)
+Theorem C07_linear_model_by_parameter :
+  forall (Jr : list (list R)) (ps : list (@param R)) n (delta : list R) r,
+  length Jr = length ps -> (0 < n)%nat ->
+  (forall k, (k < length ps)%nat -> preq (nth k ps pdflt) = true ->
+     (0 < pnumel (nth k ps pdflt))%nat /\ length (nth k Jr []) = (n * pnumel (nth k ps pdflt))%nat) ->
+  (exists k, (k < length ps)%nat /\ preq (nth k ps pdflt) = true) ->
+  (r < n)%nat ->
+  vget (mapply (flatten_row_jacobian Jr ps) delta) r =
+  by_param ps (fun i c => nth (r * pnumel (nth i ps pdflt) + c) (nth i Jr []) 0 * vget (slice_of ps i delta) c) /\
+  (forall f, sumn (sumnat (map (@pnumel R) (filter (@preq R) ps))) f = by_param ps (fun i c => f (toffset ps i + c)%nat)).
+Proof.
+  intros Jr ps n delta r H1 H2 H3 H4 H5. split; [now apply (linear_model_by_parameter Jr ps n) | apply sumn_by_param].
+Qed.
+
+(* ========================================================================================== *)
+(* 10. CORRECTORS.  __init__: a corrector argument wins over the kernel; a kernel without corrector gives
+       FastTriggs(kernel_i) (FastTriggs(Trivial()) for a None entry); None entries of a corrector list are Trivial *)
+Theorem C07_init_correctors : forall kernel corrector,
+  init_correctors kernel corrector =
+  match corrector, kernel with
+  | Some cs, _ => map (fun c => match c with Some c => CUser c | None => CTrivial end) cs
+  | None, Some ks => map (fun k => CFast k) ks
+  | None, None => [CTrivial]
+  end.
+Proof. exact init_correctors_spec. Qed.
+
+(* the loop returns exactly when there is one corrector or at least as many correctors as residuals; residual t
+   and its Jacobian go through corrector[0] when there is one corrector, through corrector[t] otherwise *)
+Theorem C07_corrector_assignment :
+  forall (corr : cid -> @tensor R -> @mat R -> @tensor R * @mat R) (RJ : list (@tensor R * @mat R)) cs,
+  ((exists out, correct_from corr cs 0 RJ = Some out) <-> (length cs = 1%nat \/ (length RJ <= length cs)%nat)) /\
+  forall out, correct_from corr cs 0 RJ = Some out ->
+    length out = length RJ /\
+    forall t dR dJ, (t < length RJ)%nat ->
+      nth t out (dR, dJ) =
+      apply_corr corr (if Nat.eqb (length cs) 1 then nth 0 cs CTrivial else nth t cs CTrivial)
+                 (fst (nth t RJ (dR, dJ))) (snd (nth t RJ (dR, dJ))).
+Proof.
+  intros corr RJ cs. split; [apply correct_from_returns_iff|]. intros out H. exact (correct_from_items corr RJ out cs H).
+Qed.
+
+(* what step() hands to the linear system: every (residual, trainable-column Jacobian) pair through its corrector,
+   then R = cat of the residual data, J = cat of the Jacobians (rows), W = block_diag of the expanded weights *)
+Theorem C07_assemble_spec :
+  forall (corr : cid -> @tensor R -> @mat R -> @tensor R * @mat R) (pb : @problem R) Rv W J,
+  assemble corr pb = Some (Rv, W, J) ->
+  exists RJ,
+    correct_from corr (pbC pb) 0 (combine (pbR pb) (map (fun Jr => flatten_row_jacobian Jr (pbP pb)) (pbJ pb))) = Some RJ /\
+    Rv = concat (map (fun rj => tdata (fst rj)) RJ) /\
+    J = concat (map snd RJ) /\
+    match pbW pb with
+    | None => W = None
+    | Some Ws => length RJ = length Ws /\
+                 exists l, expand_weights (map fst RJ) Ws = Some l /\ W = Some (block_diag l)
+    end.
+Proof. exact assemble_spec. Qed.
+
+(* for documented shapes the assembled system is well shaped: R of length N, J of N x m, W of N x N -- the guard
+   under which the model's (total) matrix products are torch's (which raises on a shape mismatch) *)
+Theorem C07_assemble_wellformed :
+  forall (corr : cid -> @tensor R -> @mat R -> @tensor R * @mat R) (pb : @problem R) RJ (specs : list wres) m,
+  correct_from corr (pbC pb) 0 (combine (pbR pb) (map (fun Jr => flatten_row_jacobian Jr (pbP pb)) (pbJ pb))) = Some RJ ->
+  map fst RJ = map wres_R specs -> Forall wres_ok specs ->
+  Forall2 (fun n J => wf n m J) (map (fun s => length (w_r s)) specs) (map snd RJ) -> specs <> [] ->
+  (pbW pb = None \/ pbW pb = Some (map wres_W specs)) ->
+  let Rv := concat (map w_r specs) in
+  let N := length Rv in
+  exists W, assemble corr pb = Some (Rv, W, concat (map snd RJ)) /\
+    wf N m (concat (map snd RJ)) /\
+    (pbW pb = None -> W = None) /\
+    (pbW pb <> None -> exists W', W = Some W' /\ wf N N W' /\ W' = block_diag (concat (map wres_blocks specs)) /\
+                                 mapply W' Rv = concat (map wres_WR specs)).
+Proof. exact assemble_wellformed. Qed.
+
+(* ========================================================================================== *)
+(* 11. ONE LM CALL AS A HISTORY.  Trial j+1 works on the matrix trial j left (A is modified in place); script =
+       (damping at the solve, parameter values the trial starts from -- arbitrary, so every accept / reject
+       pattern is covered), any number of trials.  The (k+1)-th trial solves  A_(k+1) x = -J_T R  with
+       A_(k+1) = A_0 damped by lam_1 .. lam_(k+1) cumulatively, entries in closed form *)
+Theorem C07_lm_call_history :
+  forall (gexp : nat -> list R -> list R) (solver : @mat R -> list R -> option (list R)),
+  (forall A b x, solver A b = Some x -> mapply A x = b) ->
+  forall n mn mx (JT J : @mat R) Rv script outs,
+  wf n n (mmul JT J) ->
+  lm_chain gexp solver (lm_A0 mn mx JT J) JT Rv script outs ->
+  length outs = length script /\
+  forall k, (k < length script)%nat ->
+    let o := nth k outs odflt in
+    let lams := map fst (firstn (S k) script) in
+    tA o = lm_A (lm_A0 mn mx JT J) lams /\
+    (forall i j, (i < n)%nat -> (j < n)%nat ->
+       mget (tA o) i j = if Nat.eqb i j then clampT mn mx (mget (mmul JT J) i i) * prodR (map (fun l => 1 + l) lams)
+                         else mget (mmul JT J) i j) /\
+    tb o = lm_b JT Rv /\
+    mapply (tA o) (tD o) = tb o /\
+    update_parameter gexp (snd (nth k script (0, []))) (tD o) = Some (tP o).
+Proof.
+  intros gexp solver Hs n mn mx JT J Rv script outs Hw Hc.
+  destruct (lm_chain_history gexp solver script outs _ JT Rv Hc) as [HL Hk]. split; [exact HL|].
+  intros k Hlt. cbv zeta. destruct (Hk k Hlt) as (K1 & K2 & K3 & K4).
+  split; [exact K1|]. split; [|split; [exact K2|split; [now apply Hs | exact K4]]].
+  intros i j Hi Hj. rewrite K1. now apply (lm_diag_closed_form n).
+Qed.
+
+(* when a GN step / an LM trial happens: GN returns exactly when the assembly returns and the solver answers
+   with one entry per trainable parameter element; an LM trial breaks the loop when the solver raises, raises
+   itself when the answer has another length, and otherwise updates the parameters with the solver's answer *)
+Theorem C07_step_outcomes :
+  forall (corr : cid -> @tensor R -> @mat R -> @tensor R * @mat R) (gexp : nat -> list R -> list R)
+         (solver : @mat R -> list R -> option (list R)),
+  (forall pb : @problem R,
+     (exists o, gn_step corr gexp solver pb = Some o) <->
+     exists Rv W J D, assemble corr pb = Some (Rv, W, J) /\
+       solver (fst (gn_system Rv W J)) (snd (gn_system Rv W J)) = Some D /\
+       length D = sumnat (map (@pnumel R) (filter (@preq R) (pbP pb)))) /\
+  forall Aprev JT Rv lam (ps : list (@param R)),
+    let A := lm_damp lam Aprev in let b := lm_b JT Rv in
+    let m := sumnat (map (@pnumel R) (filter (@preq R) ps)) in
+    (lm_trial gexp solver Aprev JT Rv lam ps = TSolverFailed <-> solver A b = None) /\
+    (lm_trial gexp solver Aprev JT Rv lam ps = TRaise <-> exists D, solver A b = Some D /\ length D <> m) /\
+    (forall o, lm_trial gexp solver Aprev JT Rv lam ps = TDone o <->
+       tA o = A /\ tb o = b /\ solver A b = Some (tD o) /\ length (tD o) = m /\
+       update_parameter gexp ps (tD o) = Some (tP o)).
+Proof.
+  intros corr gexp solver. split; [exact (gn_step_returns_iff corr gexp solver) | exact (lm_trial_outcomes gexp solver)].
+Qed.
+
+(* A.diagonal().add_(A.diagonal() * damping) is the documented A <- A + damping * diag(A) *)
+Theorem C07_lm_damping_documented : forall n (lam : R) (A : @mat R), wf n n A ->
+  lm_damp lam A = madd A (mscale lam (mdiag A)) /\
+  forall lams, lm_A A (lams ++ [lam]) = madd (lm_A A lams) (mscale lam (mdiag (lm_A A lams))).
+Proof.
+  intros n lam A HA. split; [now apply (lm_damp_documented n)|].
+  intros lams. rewrite lm_A_snoc. apply (lm_damp_documented n). now apply wf_lm_A.
+Qed.
+
+(* ========================================================================================== *)
+(* 12. THE GN STEP IS THE WEIGHTED LEAST-SQUARES MINIMISER.  wresid W J R y = W (J y + R)  (J y + R without
+       weight).  A GN step that returns, on a well-shaped system (C07_assemble_wellformed), under the
+       least-squares contract of the solver: the step has one entry per trainable parameter element and minimises
+       |W (J y + R)|^2 over ALL y; that step is what update_parameter applies *)
+Theorem C07_gn_step_minimises :
+  forall (corr : cid -> @tensor R -> @mat R -> @tensor R * @mat R) (gexp : nat -> list R -> list R)
+         (solver : @mat R -> list R -> option (list R)) (pb : @problem R) o Rv W J N,
+  (forall A b x, solver A b = Some x -> mapply (mtr A) (mapply A x) = mapply (mtr A) b) ->
+  gn_step corr gexp solver pb = Some o -> assemble corr pb = Some (Rv, W, J) ->
+  let m := sumnat (map (@pnumel R) (filter (@preq R) (pbP pb))) in
+  wf N m J -> length Rv = N -> (forall W', W = Some W' -> wf N N W') ->
+  length (tD o) = m /\
+  (forall y, length y = m -> sqn (wresid W J Rv (tD o)) <= sqn (wresid W J Rv y)) /\
+  update_parameter gexp (pbP pb) (tD o) = Some (tP o).
+Proof. exact gn_step_minimises. Qed.
+
+(* the minimisers of |A y - b|^2 are exactly the solutions of the normal equations
+   (<- is C07_normal_equations_are_least_squares) *)
+Theorem C07_minimisers_solve_normal_equations : forall n m (A : @mat R) (b x y : list R),
+  wf n m A -> length b = n -> length x = m ->
+  mapply (mtr A) (mapply A x) = mapply (mtr A) b ->
+  is_ls_minimiser m A b y -> mapply (mtr A) (mapply A y) = mapply (mtr A) b.
+Proof. exact minimiser_normal_eq. Qed.
+
+(* what the weight means in a GN step: the normal equations of (W J, -W R) are J^T (W^T W) J d = -J^T (W^T W) R,
+   the weight enters SQUARED; LM's undamped system is J^T W J d = -J^T W R (C07_lm_normal_equations) *)
+Theorem C07_gn_weight_enters_squared : forall N m (W J : @mat R) (Rv D : list R),
+  wf N N W -> wf N m J -> length Rv = N -> length D = m ->
+  mapply (mtr (mmul W J)) (mapply (mmul W J) D) = mapply (mtr (mmul W J)) (mapply (mneg W) Rv) ->
+  mapply (mmul (mmul (mtr J) (mmul (mtr W) W)) J) D = vneg (mapply (mmul (mtr J) (mmul (mtr W) W)) Rv).
+Proof. exact gn_normal_eq_weight_squared. Qed.
+(* witness: residual items r = (x + 1, x), weights (1, 2), J = [1 1]^T: every least-squares answer for the GN
+   system is -1/5 (the minimiser of sum w^2 r^2); LM's undamped, unclamped system gives -1/3 (the minimiser of
+   sum w r^2, the objective both docstrings state) *)
+Theorem C07_gn_lm_weight_witness : forall d : R,
+  (mapply (mtr (mmul sqW sqJ)) (mapply (mmul sqW sqJ) [d]) = mapply (mtr (mmul sqW sqJ)) (mapply (mneg sqW) sqR) -> d = -1/5) /\
+  (mapply (mmul (mmul (mtr sqJ) sqW) sqJ) [d] = mapply (mneg (mmul (mtr sqJ) sqW)) sqR -> d = -1/3).
+Proof. exact gn_lm_weight_witness. Qed.
+
+(* MINIMUM NORM.  For a Moore-Penrose pseudo-inverse P of A (the four Penrose equations), P b is a least-squares
+   minimiser and has the smallest norm among ALL minimisers -- any shape, any rank *)
+Theorem C07_pinv_min_norm : forall n m (A P : @mat R) (b : list R),
+  wf n m A -> penrose n m A P -> length b = n ->
+  is_ls_minimiser m A b (mapply P b) /\
+  forall y, is_ls_minimiser m A b y -> sqn (mapply P b) <= sqn y.
+Proof. exact pinv_min_norm. Qed.
+
+(* ... hence the GN step with the default solver PINV (pinv(A) @ b; contract: pinv returns a pseudo-inverse of
+   the system matrix) moves the parameters by THE minimum-norm minimiser of |W (J y + R)|^2 *)
+Theorem C07_gn_default_solver_min_norm :
+  forall (corr : cid -> @tensor R -> @mat R -> @tensor R * @mat R) (gexp : nat -> list R -> list R)
+         (pinv : @mat R -> @mat R) (pb : @problem R) o Rv W J N,
+  gn_step corr gexp (pinv_solver pinv) pb = Some o -> assemble corr pb = Some (Rv, W, J) ->
+  let m := sumnat (map (@pnumel R) (filter (@preq R) (pbP pb))) in
+  wf N m J -> length Rv = N -> (forall W', W = Some W' -> wf N N W') ->
+  penrose N m (fst (gn_system Rv W J)) (pinv (fst (gn_system Rv W J))) ->
+  tA o = fst (gn_system Rv W J) /\ tb o = snd (gn_system Rv W J) /\ tD o = mapply (pinv (tA o)) (tb o) /\
+  is_ls_minimiser m (tA o) (tb o) (tD o) /\
+  (forall y, is_ls_minimiser m (tA o) (tb o) y -> sqn (tD o) <= sqn y) /\
+  (forall y, length y = m -> vminus (mapply (tA o) y) (tb o) = wresid W J Rv y).
+Proof. exact gn_step_pinv_min_norm. Qed.
+
+(* ========================================================================================== *)
+(* 13. THE UPDATE IN TERMS OF THE STEP VECTOR (any update that returns; o = offset in the step).
+       Euclidean parameter i, entry k:  p[k] <- p[k] + step[toffset + k] *)
+Theorem C07_update_euclid_entries : forall eps (ps ps' : list (@param R)) step i,
+  update_parameter (exp_l eps) ps step = Some ps' -> (i < length ps)%nat ->
+  preq (nth i ps pdflt) = true -> pk (nth i ps pdflt) = Euclid ->
+  length (pdata (nth i ps' pdflt)) = pnumel (nth i ps pdflt) /\
+  forall k, (k < pnumel (nth i ps pdflt))%nat ->
+    vget (pdata (nth i ps' pdflt)) k = vget (pdata (nth i ps pdflt)) k + vget step (toffset ps i + k).
+Proof. intros eps. exact (update_euclid_entries (exp_l eps)). Qed.
+
+(* LieTensor parameter i with n items: algebra item t:  x_t <- x_t + step[o : o + manifold dim];
+   group item t:  X_t <- Exp(step[o : o + manifold dim]) X_t  (the entry step[o + manifold dim] is not read) *)
+Theorem C07_update_lietensor_items : forall eps (ps ps' : list (@param R)) step i n,
+  update_parameter (exp_l eps) ps step = Some ps' -> (i < length ps)%nat ->
+  preq (nth i ps pdflt) = true -> pk (nth i ps pdflt) <> Euclid ->
+  pnumel (nth i ps pdflt) = (n * pwidth (pk (nth i ps pdflt)))%nat ->
+  length (pdata (nth i ps' pdflt)) = pnumel (nth i ps pdflt) /\
+  forall t, (t < n)%nat ->
+    let w := pwidth (pk (nth i ps pdflt)) in
+    let o := (toffset ps i + t * w)%nat in
+    chunk w t (pdata (nth i ps' pdflt)) =
+    match pk (nth i ps pdflt) with
+    | Euclid => chunk w t (pdata (nth i ps pdflt))
+    | Algebra g => zipw Rplus (chunk w t (pdata (nth i ps pdflt))) (firstn (adim g) (skipn o step))
+    | Group g => g_mul g (exp_l eps g (firstn (adim g) (skipn o step))) (chunk w t (pdata (nth i ps pdflt)))
+    end.
+Proof. intros eps. exact (update_lie_items_kinds (exp_l eps)). Qed.
+
+(* ========================================================================================== *)
+(* 14. INSTANCES: the hypotheses of the theorems above are satisfiable on non-trivial inputs.
+       LM on free_pb (R = [1], J = [1 1]) with min = 2, max = 3: the clamp is ACTIVE (diag of J^T J is 1),
+       two trials with damping 1 (first one rejected or not): A_k = [[2 * 2^k, 1], [1, 2 * 2^k]] *)
+Example C07_lm_call_instance :
+  forall corr gexp (solver : @mat R -> list R -> option (list R)) (ps1 ps2 : list (@param R)) D1 D2,
+  lm_init corr 2 3 free_pb = Some (lmA0, lmJT, [1]) /\ lmA0 = lm_A0 2 3 lmJT lmJ /\ wf 2 2 (mmul lmJT lmJ) /\
+  (forall lams i j, (i < 2)%nat -> (j < 2)%nat ->
+     mget (lm_A lmA0 lams) i j = if Nat.eqb i j then 2 * prodR (map (fun l => 1 + l) lams) else 1) /\
+  mapply (lm_A lmA0 [1; 1]) [-1/9; -1/9] = vneg (mapply lmJT [1]) /\
+  (solver (lm_A lmA0 [1]) (lm_b lmJT [1]) = Some D1 -> solver (lm_A lmA0 [1; 1]) (lm_b lmJT [1]) = Some D2 ->
+   length D1 = sumnat (map (@pnumel R) (filter (@preq R) ps1)) ->
+   length D2 = sumnat (map (@pnumel R) (filter (@preq R) ps2)) ->
+   exists outs, lm_chain gexp solver lmA0 lmJT [1] [(1, ps1); (1, ps2)] outs /\ map (@tD R) outs = [D1; D2]).
+Proof.
+  intros corr gexp solver ps1 ps2 D1 D2.
+  split; [apply lm_instance_init|]. split; [reflexivity|]. split; [apply lm_instance_JTJ|].
+  split; [intros lams i j; apply lm_instance_entries|]. split; [exact lm_instance_second_system|].
+  apply lm_instance_chain.
+Qed.
+
+(* a weighted GN step with a group parameter: residual 2*1, weight N*R*R = 2*1*1 = (2, 3), a Euclidean scalar and
+   one SO3 item; the assembly, the shapes asked by C07_gn_step_minimises / C07_assemble_wellformed, the retraction *)
+Example C07_weighted_group_step_instance :
+  forall corr gexp (solver : @mat R -> list R -> option (list R)) r0 r1 a1 a2 a3 b1 b2 b3 d0 d1 d2 d3 d4,
+  let J := [[1; a1; a2; a3; 0]; [1; b1; b2; b3; 0]] in
+  let W := [[2; 0]; [0; 3]] in
+  let pb := wpb r0 r1 a1 a2 a3 b1 b2 b3 in
+  assemble corr pb = Some ([r0; r1], Some W, J) /\ wf 2 5 J /\ wf 2 2 W /\
+  sumnat (map (@pnumel R) (filter (@preq R) (pbP pb))) = 5%nat /\
+  (solver (mmul W J) (mapply (mneg W) [r0; r1]) = Some [d0; d1; d2; d3; d4] ->
+   exists o, gn_step corr gexp solver pb = Some o /\
+     map (@pdata R) (tP o) = [[0 + d0]; g_mul 0 (gexp 0%nat [d1; d2; d3]) [0; 0; 0; 1]]).
+Proof.
+  intros. split; [apply wpb_assemble|]. split; [exact (proj1 (wpb_shapes a1 a2 a3 b1 b2 b3))|].
+  split; [exact (proj2 (wpb_shapes a1 a2 a3 b1 b2 b3))|]. split; [reflexivity | apply wpb_steps].
+Qed.
+Example C07_assemble_wellformed_instance : forall corr r0 r1 a1 a2 a3 b1 b2 b3,
+  let pb := wpb r0 r1 a1 a2 a3 b1 b2 b3 in
+  let specs := [ {| w_pre := []; w_suf := [2%nat]; w_d := 1%nat; w_r := [r0; r1]; w_w := [2; 3] |} ] in
+  let RJ := [({| tshape := [2; 1]%nat; tdata := [r0; r1] |}, [[1; a1; a2; a3; 0]; [1; b1; b2; b3; 0]])] in
+  correct_from corr (pbC pb) 0 (combine (pbR pb) (map (fun Jr => flatten_row_jacobian Jr (pbP pb)) (pbJ pb))) = Some RJ /\
+  map fst RJ = map wres_R specs /\ Forall wres_ok specs /\
+  Forall2 (fun n J => wf n 5 J) (map (fun s => length (w_r s)) specs) (map snd RJ) /\ specs <> [] /\
+  pbW pb = Some (map wres_W specs).
+Proof. exact wpb_wellformed_hyps. Qed.
+(* the solver contracts are satisfiable TOGETHER with a returning step: a solver that satisfies the least-squares
+   contract on ALL systems and answers the system of the weighted instance (a = b = 0): the step moves only the
+   Euclidean scalar, by -(4 r0 + 9 r1) / 13 ... *)
+Example C07_gn_step_minimises_instance : forall corr gexp (r0 r1 : R),
+  let pb := wpb r0 r1 0 0 0 0 0 0 in
+  let x0 := [- (4 * r0 + 9 * r1) / 13; 0; 0; 0; 0] in
+  exists solver : @mat R -> list R -> option (list R),
+    (forall A b x, solver A b = Some x -> mapply (mtr A) (mapply A x) = mapply (mtr A) b) /\
+    exists o, gn_step corr gexp solver pb = Some o /\ tD o = x0.
+Proof. exact wpb_full_instance. Qed.
+(* ... and an exact solver (contract on ALL systems) under which an LM call on free_pb with the active clamp has
+   a first trial: 4 x + y = -1, x + 4 y = -1 *)
+Example C07_lm_call_history_instance : forall gexp,
+  exists solver : @mat R -> list R -> option (list R),
+    (forall A b x, solver A b = Some x -> mapply A x = b) /\
+    exists o, lm_chain gexp solver lmA0 lmJT [1] [(1, pbP free_pb)] [o] /\ tD o = [-1/5; -1/5].
+Proof. exact lm_full_instance. Qed.
+(* the hypotheses of C07_jacobian_column_layout / C07_linear_model_by_parameter on that problem (n = 2) *)
+Example C07_column_layout_instance : forall r0 r1 a1 a2 a3 b1 b2 b3 : R,
+  let pb := wpb r0 r1 a1 a2 a3 b1 b2 b3 in
+  let Jr := [[1; 1]; [a1; a2; a3; 0; b1; b2; b3; 0]] in
+  pbJ pb = [Jr] /\ length Jr = length (pbP pb) /\ (0 < 2)%nat /\
+  (forall k, (k < length (pbP pb))%nat -> preq (nth k (pbP pb) pdflt) = true ->
+     (0 < pnumel (nth k (pbP pb) pdflt))%nat /\ length (nth k Jr []) = (2 * pnumel (nth k (pbP pb) pdflt))%nat) /\
+  (exists k, (k < length (pbP pb))%nat /\ preq (nth k (pbP pb) pdflt) = true) /\
+  flatten_row_jacobian Jr (pbP pb) = [[1; a1; a2; a3; 0]; [1; b1; b2; b3; 0]] /\
+  toffset (pbP pb) 1 = 1%nat.
+Proof. exact wpb_layout_hyps. Qed.
+Example C07_two_weighted_residuals_instance : forall r0 r1 r2 r3 s0 s1 w0 w1 v0 : R,
+  Forall wres_ok [ {| w_pre := [2%nat]; w_suf := [2%nat]; w_d := 1%nat; w_r := [r0; r1; r2; r3]; w_w := [w0; w1] |};
+                   {| w_pre := [2%nat]; w_suf := []; w_d := 1%nat; w_r := [s0; s1]; w_w := [v0] |} ].
+Proof. exact wres_instance. Qed.
+
+(* the Penrose contract is satisfiable: A = [1 1] (the system of free_pb), pinv A = [1/2 1/2]^T; the default
+   solver then moves both parameters by -1/2, the minimum-norm solution of d1 + d2 = -1 *)
+Example C07_default_solver_instance : forall corr gexp (pinv : @mat R -> @mat R),
+  penrose 1 2 pA pP /\
+  (pinv pA = pP ->
+   exists o, gn_step corr gexp (pinv_solver pinv) free_pb = Some o /\ tA o = pA /\
+             tD o = mapply pP (vneg [1]) /\ vget (tD o) 0 = -1/2 /\ vget (tD o) 1 = -1/2).
+Proof. intros. split; [exact pinv_instance_penrose | apply pinv_instance_steps]. Qed.
+
 Print Assumptions C07_weight_expansion_is_broadcast.
 Print Assumptions C07_block_diag_acts_blockwise.
 Print Assumptions C07_weighted_residual_is_broadcast.
@@ -296,3 +699,34 @@ Print Assumptions C07_old_gn_step_with_frozen_refuted.
 Print Assumptions C07_gn_step_with_frozen_witness.
 Print Assumptions C07_gn_step_without_frozen.
 Print Assumptions C07_solver_contract_satisfiable.
+Print Assumptions C07_weight_expansion_any_shape.
+Print Assumptions C07_weight_expansion_is_torch_broadcast.
+Print Assumptions C07_weight_expansion_same_count.
+Print Assumptions C07_weight_leading_ones_is_torch_broadcast.
+Print Assumptions C07_weight_inner_singleton_refuted.
+Print Assumptions C07_weighted_residuals_are_broadcast.
+Print Assumptions C07_jacobian_column_layout.
+Print Assumptions C07_linear_model_by_parameter.
+Print Assumptions C07_init_correctors.
+Print Assumptions C07_corrector_assignment.
+Print Assumptions C07_assemble_spec.
+Print Assumptions C07_assemble_wellformed.
+Print Assumptions C07_lm_call_history.
+Print Assumptions C07_step_outcomes.
+Print Assumptions C07_lm_damping_documented.
+Print Assumptions C07_gn_step_minimises.
+Print Assumptions C07_minimisers_solve_normal_equations.
+Print Assumptions C07_gn_weight_enters_squared.
+Print Assumptions C07_gn_lm_weight_witness.
+Print Assumptions C07_pinv_min_norm.
+Print Assumptions C07_gn_default_solver_min_norm.
+Print Assumptions C07_update_euclid_entries.
+Print Assumptions C07_update_lietensor_items.
+Print Assumptions C07_lm_call_instance.
+Print Assumptions C07_weighted_group_step_instance.
+Print Assumptions C07_assemble_wellformed_instance.
+Print Assumptions C07_gn_step_minimises_instance.
+Print Assumptions C07_lm_call_history_instance.
+Print Assumptions C07_column_layout_instance.
+Print Assumptions C07_two_weighted_residuals_instance.
+Print Assumptions C07_default_solver_instance.
